@@ -112,8 +112,9 @@ def measure_nn(self, O, P, bond=None) -> dict:
 
     out = {}
     for bond in bonds:
-        for nz0, O in Odict[bond[0]].items():
-            for nz1, P in Pdict[bond[1]].items():
+        for nz0, O0 in Odict[bond[0]].items():
+            for nz1, P1 in Pdict[bond[1]].items():
+                O, P = O0, P1  # do not carry the legs added below over to the next pair of operators
 
                 if O.ndim == 2 and P.ndim == 2:
                     O = O.add_leg(s=1, axis=2)
